@@ -474,6 +474,8 @@ def parse_url(url_text: bytes) -> list[Node]:
                 end=(offset := offset + len(url.query)),
             )
         )
+    elif url_text[offset : offset + 1] == b"?":
+        offset += 1  # empty query, the ? is still there
     if url.fragment:
         offset += 1  # fragment starts with #
         out.append(
